@@ -26,7 +26,8 @@ ASSUMPTIONS = [
     'the input geometry itself is conforming (side-sharing <=> connection, no hanging nodes); otherwise only conservation and tiling are judged',
     'sample points closer than 1e-6 column diameters + 1e-9 |coordinate| to an old or new column side are not judged (counted)',
     'area/volume tolerance: relative 1e-9 plus (perimeter x |coordinate| x 1e-15), the rounding of mid-side nodes of boundary sides '
-    '(measured on the unchanged tree: relative differences <= 4e-16 for coordinates below 1e4)',
+    '(measured, label area:deviation/tolerance: 90 % of the steps conserve the exact-rational area exactly, the rest deviate by less '
+    'than 0.1 % of the tolerance)',
     'triangulate_column called directly is an undocumented helper that does not create connections or refresh the block list: '
     'for it only conservation, tiling, surfaces, hanging nodes and "every connection joins side-sharing columns" are judged',
     'refine_layers on a geometry whose atmosphere layer name collides with a regenerated layer name (known, shipped g4.dat) is '
